@@ -4,6 +4,8 @@ STUBS = ['_ZN28MemoryLeakOutputStringBuffer16reportMemoryLeakEP22MemoryLeakDetec
          '_ZN28MemoryLeakOutputStringBuffer29reportMemoryCorruptionFailureEP22MemoryLeakDetectorNodePKcmP19TestMemoryAllocatorP17MemoryLeakFailure']
 D = {'1_0': 'test 1 leaks a block; test 2 allocates nothing', '2_1': 'test 1 allocates and releases; test 2 leaks', '1_5': 'test 1 leaks; test 2 releases that block and leaks a new one',
      '1_4': 'test 1 leaks; test 2 only releases that block', '3_3': 'both tests allocate+release one block and leak another', '0_0': 'no allocation at all'}
+D1 = dict(D); D1.update({'9_0': 'test 1 leaks two blocks; test 2 allocates nothing', '9_5': 'test 1 leaks two blocks; test 2 releases one of them and leaks a new one',
+      '11_3': 'test 1 allocates+releases one block and leaks two; test 2 allocates+releases one and leaks one', '9_4': 'test 1 leaks two blocks; test 2 only releases one of them'})
 SPEC = {
     'property': 'C07',
     'max_jobs': 1,   # ~13 GB per obligation
@@ -20,7 +22,7 @@ SPEC = {
         # end-of-period marking are exercised with a successor present (seeded C07-r4)
         'name': 'plugin1', 'wrapper': 'w07.cpp', 'harness': 'h07.c',
         'config': {'memleak': True, 'stubs': STUBS, 'defines': ['-DCPPUTEST_VERIF_HASH_TABLE_SIZE=1'], 'heapcheck': False, 'empty_regex': ['^_ZN[0-9]+[A-Za-z]*FailureC[12]E', '^_ZN[0-9]+[A-Za-z]*FailureD[012]E']},
-        'obligations': [{'fn': 'harness_two_tests_9_0', 'tier': 'quick', 'unwind': 6, 'timeout': 2400, 'cbmc_flags': ['--max-field-sensitivity-array-size', '128'], 'unwindset': ['_ZN12SimpleString6StrCmpEPKcS1_.0:28', '_ZN12SimpleString6StrLenEPKc.0:40', '_ZN12SimpleString7StrNCpyEPcPKcm.0:40', 'env_fputs.0:40'],
-                         'bounds': 'two consecutive tests, ONE hash bucket: test 1 leaks two blocks (same chain), test 2 allocates nothing; expected-leak counts 0..3, ignore flags and own pass/fail of both tests symbolic'}],
+        'obligations': [{'fn': 'harness_two_tests_%s' % k, 'tier': 'quick', 'unwind': 6, 'timeout': 2400, 'cbmc_flags': ['--max-field-sensitivity-array-size', '128'], 'unwindset': ['_ZN12SimpleString6StrCmpEPKcS1_.0:28', '_ZN12SimpleString6StrLenEPKc.0:40', '_ZN12SimpleString7StrNCpyEPcPKcm.0:40', 'env_fputs.0:40'],
+                         'bounds': 'two consecutive tests, ONE hash bucket (all live blocks share a chain): %s; expected-leak counts 0..3, ignore flags and own pass/fail of both tests symbolic' % d} for k, d in D1.items()],
     }],
 }
